@@ -176,8 +176,12 @@ class Concretiser:
         style = 0 if self.plain else self.rnd.choice([0, 0, 1, 2])
         return join_tokens(toks, self.rnd, style)
 
-    def binding(self, e, object_inner=False):
+    def binding(self, e, object_inner=False, dx=None):
         s = self.expr(e, object_inner)
+        if dx == "unterminated":
+            return "{{" + self.ch([" ", ""]) + s + self.ch([" ", "", " }"])
+        if dx == "garbage":
+            s = s + self.rnd.choice([" zz", " )", " ]", " 1", " 'x'", " ? "])
         pad = self.ch([" ", "", "  ", "\n"])
         if s.startswith("{") or s.endswith("}"):
             pad = pad or " "
@@ -188,7 +192,7 @@ class Concretiser:
         if t == "s":
             return esc_attr(v["s"], q, self.rnd)
         if t == "e":
-            return self.binding(v["e"], object_inner)
+            return self.binding(v["e"], object_inner, v.get("dx"))
         if t == "m":
             return "".join(esc_attr(p["s"], q, self.rnd) if p["t"] == "s" else self.binding(p["e"]) for p in v["ps"])
         raise ValueError(t)
@@ -226,6 +230,14 @@ class Concretiser:
             if v["t"] == "s" and v["s"] == "":
                 v = {"t": "none"}
             return self.attr_text("slot:" + n, v)
+        elif f == "wx:bad":
+            name = "wx:" + n
+        elif f == "badprefix":
+            name = "foo:" + n
+        elif f == "twoprefix":
+            name = "mark:x:" + n
+        elif f == "wxif":
+            name = "wx:if"
         elif f.endswith(":"):
             name = f + n
         else:
@@ -264,9 +276,11 @@ class Concretiser:
     def node(self, n):
         t = n["t"]
         if t == "text":
-            return "".join(esc_text(p["s"], self.rnd) if p["t"] == "s" else self.binding(p["e"]) for p in n["ps"])
+            return "".join(esc_text(p["s"], self.rnd) if p["t"] == "s" else self.binding(p["e"], dx=p.get("dx")) for p in n["ps"])
         if t == "comment":
             return "<!--" + n["s"] + "-->"
+        if t == "elem" and n.get("dx"):
+            return self.defective(n)
         if t == "elem":
             return self.element(n["tag"], [self.attr(a) for a in n["at"]], self.nodes(n["ch"]))
         if t == "block":
@@ -310,9 +324,49 @@ class Concretiser:
             return self.element("slot", at, "")
         raise ValueError("unknown node kind %r" % t)
 
+    CUT = "\x00CUT\x00"
+
+    def defective(self, n):
+        """defect injections of spec/Defects.tla"""
+        dx = n["dx"]
+        attrs = [self.attr(a) for a in n["at"]]
+        if dx == "noend":
+            return self.tag_open(n["tag"], attrs, False) + self.nodes(n["ch"])
+        if dx == "cut":
+            s = "<" + n["tag"] + "".join(" " + a for a in attrs)
+            return s + self.ch(["", " ", "\n"]) + self.CUT
+        fixed = {
+            "dup-wx:if": '<v wx:if="{{a}}" wx:if="{{b}}"/>',
+            "dup-wx:for": '<v wx:for="{{l}}" wx:for="{{l}}"/>',
+            "dup-wx:key": '<v wx:for="{{l}}" wx:key="a" wx:key="b"/>',
+            "dup-wx:for-item": '<v wx:for="{{l}}" wx:for-item="x" wx:for-item="y"/>',
+            "dup-wx:for-index": '<v wx:for="{{l}}" wx:for-index="x" wx:for-index="y"/>',
+            "dup-is": '<template is="a" is="b"/>',
+            "dup-data": '<template is="a" data="{{x:1}}" data="{{y:2}}"/>',
+            "dup-src": '<include src="a" src="b"/>',
+            "dup-module": '<wxs module="m" module="n">var a = 1</wxs>',
+            "dup-name": '<template name="a" name="b"><v/></template>',
+            "dup-slotname": '<slot name="a" name="b"/>',
+            "dup-wx:elif": '<v wx:if="{{a}}"/><v wx:elif="{{a}}" wx:elif="{{b}}"/>',
+            "dup-wx:else": '<v wx:if="{{a}}"/><v wx:else wx:else/>',
+            "kids-include": '<include src="b"><v/></include>',
+            "kids-import": '<import src="b"><v/></import>',
+            "kids-slot": '<slot><v/></slot>',
+            "kids-template-is": '<template is="t"><v/></template>',
+            "kids-wxs-src": '<wxs module="m" src="s">var a = 1</wxs>',
+            "nosrc-include": '<include/>',
+            "nosrc-import": '<import/>',
+            "nomodule-wxs": '<wxs>var a = 1</wxs>',
+            "nois-template": '<template data="{{a:1}}"/>',
+        }
+        s = fixed[dx]
+        if not self.plain and self.rnd.random() < 0.5:
+            s = s.replace('" ', '"\n ').replace("/>", " />")
+        return s
+
     def wrap_dir(self, dir_attrs, ch):
         """wx:if / wx:for on the single child element itself, or on a wrapping <block>"""
-        if len(ch) == 1 and ch[0]["t"] == "elem" and not any(a["f"] == "slot:" for a in ch[0]["at"]) \
+        if len(ch) == 1 and ch[0]["t"] == "elem" and not ch[0].get("dx") and not any(a["f"] == "slot:" for a in ch[0]["at"]) \
                 and not self.plain and self.rnd.random() < 0.5:
             e = ch[0]
             attrs = [self.attr(a) for a in e["at"]]
@@ -335,7 +389,10 @@ class Concretiser:
         for d in f.get("defs", []):
             out.append('<template name="%s">%s</template>' % (d["n"], self.nodes(d["ch"])))
         out.append(self.nodes(f["root"]))
-        return ("\n" if self.chance(0.3) else "").join(out)
+        text = ("\n" if self.chance(0.3) else "").join(out)
+        if self.CUT in text:
+            text = text[:text.index(self.CUT)]       # the source ends inside the tag
+        return text
 
 
 def js_value(v, fn_table):
